@@ -275,6 +275,62 @@ def check_hash_threads(case, ctx):
                             "RIPEMD-160 / HASH160 for its %d-byte message" % (len(msgs), t, len(msgs[t])))
 
 
+# ------------------------------------------------------------------------------------ one key object, several threads
+REQS = ["sec:c", "sec:u", "h160:c", "h160:u", "addr:p2pkh:c", "addr:p2pkh:u", "addr:p2wpkh:c"]
+
+
+def check_key_threads(case, ctx):
+    """2..3 threads use ONE PublicKey object (and one wallet/node) at once, asking for different forms, under the
+    deterministic scheduler; every answer must be the one a single thread gets."""
+    from vlib import threads as T
+    BaseWallet, Prv, Pub, PublicKey = _impl()
+    k, testnet = case["k"], case["testnet"]
+    pt = secp.mul_g(k)
+    exp = expected(pt, testnet)
+    node = Prv(key=k.to_bytes(32, "big"), chain_code=b"\x00" * 32, testnet=testnet)
+    w = BaseWallet(master=node, testnet=testnet)
+    pk = node.public_key
+
+    def do(req):
+        if req in KINDS:
+            return getattr(w, req + "_address")(node)
+        parts = req.split(":")
+        comp = parts[-1] == "c"
+        if parts[0] == "sec":
+            return pk.sec(compressed=comp)
+        if parts[0] == "h160":
+            return pk.h160(compressed=comp)
+        return pk.address(compressed=comp, testnet=testnet, addr_type=parts[1])
+
+    def runner(reqs):
+        def run():
+            return [call(do, r) for r in reqs]
+        return run
+    results, errors = T.run_scheduled(case["plan"], [runner(r) for r in case["threads"]],
+                                      T.library_files("keys", "helper", "base_wallet", "script", "bech32", "bip32"), ctx)
+    for t, reqs in enumerate(case["threads"]):
+        if t in errors:
+            raise Violation("C05/key-threads/crashed", "thread %d raised %r" % (t, errors[t]))
+        for req, (st_, v) in zip(reqs, results[t]):
+            what = "with %d threads sharing one key object, %s (k=%#x, thread %d of %r)" % (len(case["threads"]), req, k, t, case["threads"])
+            if st_ == "exc":
+                raise Violation("C05/key-threads/raised", "%s raised %r" % (what, v))
+            if req in KINDS:
+                judge("C05/key-threads[%s]" % req, what, v, exp[req])
+                continue
+            parts = req.split(":")
+            comp = parts[-1] == "c"
+            enc = secp.ser_c(pt) if comp else secp.ser_u(pt)
+            if parts[0] == "sec":
+                if v != enc:
+                    raise Violation("C05/key-threads/sec", "%s = %r, expected %s" % (what, v, enc.hex()))
+            elif parts[0] == "h160":
+                if v != hashes.hash160(enc):
+                    raise Violation("C05/key-threads/h160", "%s = %r, expected %s" % (what, v, hashes.hash160(enc).hex()))
+            else:
+                judge("C05/key-threads[%s]" % req, what, v, exp[parts[1] if comp else "p2pkh_uncompressed"])
+
+
 def clauses():
     return [
         Clause("addresses", check_addr,
@@ -290,6 +346,15 @@ def clauses():
                                                        "h256": st.binary(min_size=32, max_size=32)}),
                nontrivial=lambda c: c["h160"][0] in (0, 0x4C, 0x4D, 0x4E) or c["h256"][0] in (0, 0x4C, 0x4D, 0x4E) or True,
                n={"quick": 1000, "thorough": 50000}, shards={"quick": 4, "thorough": 16}),
+        Clause("key-threads", check_key_threads,
+               "2..3 threads share one PublicKey object, one node and one wallet and ask for 1..4 of {sec, h160, P2PKH in "
+               "compressed and uncompressed form, P2WPKH, the five wallet address kinds} each, under the deterministic "
+               "line-granularity scheduler; every answer judged as in `addresses`; non-trivial = >= 2 switches (measured)",
+               gen=lambda tier: st.fixed_dictionaries({
+                   "k": st.one_of(S.scalars(), st.sampled_from(LZ_KEYS)), "testnet": st.booleans(),
+                   "threads": st.lists(st.lists(st.sampled_from(REQS + REQS + KINDS), min_size=1, max_size=4), min_size=2, max_size=3),
+                   "plan": __import__("vlib.threads", fromlist=["plans"]).plans(max_run=6)}),
+               n={"quick": 400, "thorough": 12000}, shards={"quick": 16, "thorough": 16}),
         Clause("hash-threads", check_hash_threads,
                "2..4 free-running threads (switch interval 1e-6) hash different messages repeatedly; each digest must "
                "equal hashlib's", gen=lambda tier: st.fixed_dictionaries({
